@@ -61,9 +61,11 @@ func (n anode) build(forms []int) any {
 		return nil
 	case "S":
 		s := newStackKind(n.K)
+		var vals []any
 		for _, k := range n.Kids {
-			s.Push(k.build(forms))
+			vals = append(vals, k.build(forms))
 		}
+		fill(s, vals, fillMode(n.String()))
 		f := "native"
 		if n.Pos > 0 {
 			f = stackForms[forms[n.Pos-1]%len(stackForms)]
